@@ -20,7 +20,7 @@ RULE_TEXT = (
 )
 PROBES = ["late_registration", "responses", "errors", "silent", "multicast_requests", "coalesced_datagrams", "several_checks_fail", "undecodable_tail"]
 RUNS = {"quick": 12000, "thorough": 1500000}
-SVC = {"svc": 0x4321, "inst": 1, "major": 2, "minor": 0, "methods": {"1": "echo", "2": "none", "3": "malformed", "4": "empty", "32768": "echo"},
+SVC = {"svc": 0x4321, "inst": 1, "major": 2, "minor": 0, "methods": {"1": "echo", "2": "none", "3": "malformed", "4": "empty", "32768": "echo", "7": "echo-obj", "8": "malformed-sub"},
        "eventgroups": [{"id": 1, "interval": 0.05, "values": {"1": "aabb"}}]}
 MTYPES = [0, 1, 2, 0x40, 0x41, 0x42, 0x80, 0x81, 0xC0, 0xC1]
 TIMINGS = {"INITIAL_DELAY_MIN": 0, "INITIAL_DELAY_MAX": 0, "REPETITIONS_MAX": 0, "CYCLIC_OFFER_DELAY": 100, "SEND_COLLECTION_TIMEOUT": 0, "SUBSCRIBE_REFRESH_INTERVAL": None}
@@ -34,7 +34,7 @@ def rand_msg(r):
     u = r.random()
     svc = SVC["svc"] if u < 0.8 else r.choice([SVC["svc"] + 1, 0xFFFF, 0])
     iface = SVC["major"] if r.random() < 0.8 else r.choice([SVC["major"] + 1, 0, 0xFF])
-    method = r.choice([1, 1, 2, 3, 4, 32768]) if r.random() < 0.75 else r.choice([5, 6, 5, 0, 0x7FFF, 0x8001, 0xFFFF])
+    method = r.choice([1, 1, 2, 3, 4, 32768, 7, 8]) if r.random() < 0.75 else r.choice([5, 6, 5, 0, 0x7FFF, 0x8001, 0xFFFF])
     mtype = r.choice([0, 0, 0, 1]) if r.random() < 0.75 else r.choice(MTYPES)
     rc = 0 if r.random() < 0.8 else r.randint(1, 10)
     n = r.choice([0, 0, 1, 2, 8, 255, 256, 1400]) if r.random() < 0.8 else r.randint(0, 1400)
@@ -87,11 +87,11 @@ def expected_reply(m, methods, svc, major):
         return (0x81, 10, b""), "mtype"
     if m.rc != 0:
         return (0x81, 10, b""), "rc"
-    if kind == "malformed":
+    if kind in ("malformed", "malformed-sub"):
         return (0x81, 9, b""), "malformed"
     if m.mtype == 1 or kind == "none":
         return None, "silent:" + ("fnf" if m.mtype == 1 else "none")
-    return (0x80, 0, m.payload if kind == "echo" else b""), "response:" + kind
+    return (0x80, 0, m.payload if kind in ("echo", "echo-obj") else b""), "response:" + kind
 
 
 def nfail(m, methods, svc, major):
